@@ -5,7 +5,7 @@
    share no dictionary.  Tested only: the contents of the copies, compose / flagComplex /
    vietorisRipsComplex / Filtration.copy freshness, follow-up mutation scripts. *)
 From Coq Require Import String ZArith Bool Arith List.
-From SV Require Import Names NamesFacts ListFacts Rep Fresh Complex Atomic RepInv Reach Homology Filtration Gen World WorldProofs.
+From SV Require Import Names NamesFacts ListFacts Rep Fresh Complex Atomic RepInv Reach Homology Filtration Gen World WorldProofs Shapes CopyFaithful.
 
 Theorem C09_copy_is_fresh :
   forall hp src uid hp' r' x, copy_new hp src uid = (hp', r', x) ->
@@ -32,3 +32,15 @@ Theorem C09_bulk_add_keeps_ownership :
   owned r' /\ r_uid r' = r_uid r /\ forall h, fst h <> r_uid r -> heap_get hp' h = heap_get hp h.
 Proof. exact addFrom_loop_owned. Qed.
 Print Assumptions C09_bulk_add_keeps_ownership.
+
+(* copy(): the new complex has exactly the simplices of the source, each with its order and
+   exactly its faces (and satisfies the shape invariant) *)
+Theorem C09_copy_faithful :
+  forall hp src uid hp' r',
+  copy_new hp (view_of src) uid = (hp', r', Ok tt) ->
+  sinv r' /\
+  (forall s, containsSimplex r' s = memn s (simplices src false)) /\
+  (forall s, In s (simplices src false) ->
+     orderOf r' s = Ok (length (faces src s) - 1) /\ forall t, In t (faces r' s) <-> In t (faces src s)).
+Proof. exact copy_faithful. Qed.
+Print Assumptions C09_copy_faithful.
